@@ -79,7 +79,15 @@ inline std::string gen_literal(Rng& r, size_t maxlen, bool rfc_only = false) {
       else if (ew < 6) e = -(long)ni + r.range(-320, 320);
       else if (ew < 8) e = r.range(-400, 400);
       else if (ew == 8) { static const long ex[] = {38, 39, -38, -39, -45, 308, 309, -308, -309, -323, -324, 37, 300, -300, 301, -301}; e = r.pick(ex) - (r.coin() ? (long)ni - 1 : 0); }
-      else e = r.range(-5000, 5000);
+      else if (maxlen <= 40 || r.coin()) e = r.range(-5000, 5000);   // (short literals of the history generator: stream unchanged)
+      else {
+        // exponents around the widths an exponent accumulator may have (2^15, 2^16, 2^31, 2^32, 2^63): far outside every
+        // floating-point range, so the value is +-infinity / +-0 unless the accumulator wraps
+        static const long wide[] = {32767, 32768, 32769, 65535, 65536, 65537, 65540, 65836, 131072, 99999, 2147483647L, 2147483648L, 2147483649L, 4294967295L, 4294967296L, 4294967297L, 4294967596L, 9223372036854775807L};
+        e = r.pick(wide);
+        if (e < 9000000000000000000L && r.chance(1, 3)) e += r.range(0, 400);
+        if (r.coin()) e = -e;
+      }
       s += r.coin() ? 'e' : 'E';
       if (e < 0) s += '-'; else if (r.chance(1, 3)) s += '+';
       std::string es = std::to_string(e < 0 ? -e : e);
